@@ -20,7 +20,7 @@ func init() {
 }
 
 var c07Faults = []string{"rst", "fin", "restart", "down-at-start", "rst-twice", "restart-then-rst", "silent-then-close",
-	"layout-move-slots", "layout-failover", "layout-drain-master", "layout-move-then-rst"}
+	"layout-move-slots", "layout-failover", "layout-drain-master", "layout-move-then-rst", "layout-id-moves-address", "rst-all-at-once"}
 
 // keysFor returns n keys whose slot is owned by node (per the cluster's current view).
 func keysFor(cl *fakecluster.Cluster, node *fakecluster.Node, n int, tag string) []string {
@@ -99,13 +99,29 @@ func c07(r *ev.Run) {
 
 func c07History(r *ev.Run, s *sutc.SUT, rnd *rand.Rand, fault string, rep int) {
 	nm := 2 + rnd.Intn(3)
-	cl, err := fakecluster.New(nm, 1)
+	nrep := 1
+	if fault == "rst-all-at-once" {
+		nm, nrep = 24, 0
+	}
+	if fault == "layout-id-moves-address" {
+		nm++ // one spare master without slots
+		nrep = rep % 2
+	}
+	cl, err := fakecluster.New(nm, nrep)
 	if err != nil {
 		r.Internal("fakecluster: %v", err)
 		return
 	}
 	defer cl.Close()
-	cl.AssignContiguous()
+	var spare *fakecluster.Node
+	if fault == "layout-id-moves-address" {
+		ms := cl.Masters()
+		spare = ms[len(ms)-1]
+		live := ms[:len(ms)-1]
+		cl.AssignAll(func(sl int) *fakecluster.Node { return live[sl*len(live)/fakecluster.NumSlots] })
+	} else {
+		cl.AssignContiguous()
+	}
 	cl.LogArgs = false
 	e := &c07Env{r: r, s: s, cl: cl}
 	var layoutChangedAt int64 = -1
@@ -125,6 +141,9 @@ func c07History(r *ev.Run, s *sutc.SUT, rnd *rand.Rand, fault string, rep int) {
 		}
 	}
 	masters := cl.Masters()
+	if spare != nil {
+		masters = masters[:len(masters)-1]
+	}
 	victim := masters[rnd.Intn(len(masters))]
 	before := 3 + rnd.Intn(30)
 	during := 1 + rnd.Intn(15)
@@ -280,6 +299,42 @@ func c07History(r *ev.Run, s *sutc.SUT, rnd *rand.Rand, fault string, rep int) {
 			to.KillConns(true)
 			e.note("connection to the new owner reset")
 		}
+	case "rst-all-at-once":
+		// every backend connection is lost at the same moment, several times
+		for round := 0; round < 6; round++ {
+			var kw sync.WaitGroup
+			for _, m := range masters {
+				kw.Add(1)
+				go func(m *fakecluster.Node) { defer kw.Done(); m.KillConns(true) }(m)
+			}
+			kw.Wait()
+			time.Sleep(30 * time.Millisecond)
+			for _, m := range masters {
+				e.do("GET", keysFor(cl, m, 1, "all")[0]) // re-establish every connection
+			}
+		}
+		e.note("all %d backend connections reset at once, 6 times", len(masters))
+	case "layout-id-moves-address":
+		// the node keeps its id (nodes.conf) but comes back on another address; the old address is taken over by a node
+		// with another id and no slots, which redirects
+		layout = true
+		cl.Lock()
+		victim.ID, spare.ID = spare.ID, victim.ID
+		for sl := 0; sl < fakecluster.NumSlots; sl++ {
+			if cl.Nodes[0].OwnerLocked(sl) == victim {
+				cl.SetOwnerLocked(sl, spare)
+			}
+		}
+		for _, k := range victim.DB().Keys() {
+			cl.MigrateKeyLocked(victim, spare, k)
+		}
+		mu.Lock()
+		layoutChangedAt = lclock.Tick()
+		e.firstRedir = 0
+		mu.Unlock()
+		cl.Unlock()
+		e.note("node id %s... now lives at %s (was %s); the old address answers MOVED", spare.ID[:8], spare.Addr, victim.Addr)
+		stream(during, "during", false)
 	case "layout-failover":
 		layout = true
 		rep := cl.Replicas(victim)[0]
@@ -317,6 +372,22 @@ func c07History(r *ev.Run, s *sutc.SUT, rnd *rand.Rand, fault string, rep int) {
 
 	// phase 4: verification stream
 	res := stream(30, "verify", true)
+	if fault == "rst-all-at-once" && res >= 0 {
+		for _, m := range masters {
+			k := keysFor(cl, m, 1, "all")[0]
+			ok := false
+			for t := 0; t < 3 && !ok; t++ {
+				if _, ok = e.do("SET", k, "v"); !ok {
+					time.Sleep(time.Second)
+				}
+			}
+			if !ok {
+				e.note("node %d is reachable but requests for it keep failing", m.Idx)
+				res = -1
+				break
+			}
+		}
+	}
 	if sutDied(r, s, witness(nil)) {
 		return
 	}
